@@ -48,6 +48,21 @@ def call_builtin(ip, f, args, kwargs):
             kind = type(e).__name__
             raise PyRaise(kind if kind in V.EXC else "Exception", msg=str(e))
 
+    if name == "join" and isinstance(getattr(f, "__self__", None), str) and len(args) == 1:
+        # sep.join(<symbolic sequence>): an uninterpreted string; TypeError unless every item is a str (decided pointwise
+        # for a comprehension whose element expression is a string, otherwise left open)
+        from .comp import comp_element_function
+        seq = ip.iter_seq(args[0])
+        ef = comp_element_function(seq)
+        ok = False
+        if ef is not None:
+            sv = z3.Solver()
+            sv.set("timeout", 3000)
+            sv.add(z3.Not(V.is_str(ef)))
+            ok = sv.check() == z3.unsat
+        if not ok:
+            ip.guard([("TypeError", z3.Function("U_join_err", V.VS, V.B)(seq))])
+        return Z(V.VStr(z3.Function("U_join", V.S, V.VS, V.S)(z3.StringVal(f.__self__), seq)))
     if f is _b.isinstance:
         return _isinstance(ip, args[0], args[1])
     if f is _b.issubclass and _all_concrete(args, kwargs):
